@@ -4,6 +4,8 @@ package engine
 
 import (
 	"fmt"
+	"regexp"
+	"time"
 	"sort"
 	"strconv"
 	"strings"
@@ -19,7 +21,7 @@ func init() { Register(c14{}) }
 
 func (c14) Name() string { return "c14" }
 func (c14) Rule() string {
-	return "full-server simulation over the wire: 8..45 client operations (didOpen/didChange/didSave/didClose/re-open, completion, hover, definition, references, rename, prepareRename, documentSymbol, workspace/symbol, formatting, foldingRange, documentLink, semanticTokens full/range/delta, inlineCompletion, Server.CodeAction through a debug method, didChangeConfiguration with the client answering workspace/configuration immediately, late or never, unknown notifications, requests on closed documents) on 1..4 journal-profile documents carrying version markers, with and without workspace root, hledger found or not (exec-ok), optional transport close; in a quarter of the runs (disk-fault class) journal files are hit by one-shot disk faults (enoent, eio, torn read, stat-small) while only the invariants and the marker oracle are judged, then the faults stop, the server is told about the files they hit (didSave / didOpen+didSave+didClose), every open document is touched, and from then on every compared answer must again equal the fresh reference; every go statement of the server is a task the simulator schedules under 7 policies with preemption at every lock, sync.Map, disk, clock, exec and client call. Invariants: no panic in any task, no deadlock, no livelock within 20000 steps, and in the -race build (same seeds, happens-before-invisible scheduling) no data-race report. Oracle: no marker of a superseded version of the requesting document in any response; sampled responses must equal, after canonical JSON, the response of a FRESH sequential reference server brought to the same client-visible state (same disk clone, same settings, didOpen of every open document in open order); while background work of the requesting document is still pending the answer may instead equal the cold reference (no analysis has run) or the lagging reference (analysis of the last published version has run, the latest change not yet). Non-trivial: >= 2 server tasks alive at once or a request answered while a task was pending. Distinct: schedule signature + operation kinds."
+	return "full-server simulation over the wire: 8..45 client operations (didOpen/didChange/didSave/didClose/re-open, completion, hover, definition, references, rename, prepareRename, documentSymbol, workspace/symbol, formatting, foldingRange, documentLink, semanticTokens full/range/delta, inlineCompletion, Server.CodeAction through a debug method, didChangeConfiguration with the client answering workspace/configuration immediately, late or never, unknown notifications, requests on closed documents) on 1..4 journal-profile documents carrying version markers, with and without workspace root, hledger found or not (exec-ok), optional transport close, clock jumps (over midnight, by months, backwards); in a quarter of the runs (disk-fault class) journal files are hit by one-shot disk faults (enoent, eio, torn read, stat-small) while only the invariants and the marker oracle are judged, then the faults stop, the server is told about the files they hit (didSave / didOpen+didSave+didClose), every open document is touched, and from then on every compared answer must again equal the fresh reference; every go statement of the server is a task the simulator schedules under 7 policies with preemption at every lock, sync.Map, disk, clock, exec and client call. Invariants: no panic in any task, no deadlock, no livelock within 20000 steps, and in the -race build (same seeds, happens-before-invisible scheduling) no data-race report. Oracle: no marker of a superseded version of the requesting document in any response; sampled responses must equal, after canonical JSON, the response of a FRESH sequential reference server brought to the same client-visible state (same disk clone, same settings, didOpen of every open document in open order); while background work of the requesting document is still pending the answer may instead equal the cold reference (no analysis has run) or the lagging reference (analysis of the last published version has run, the latest change not yet). Non-trivial: >= 2 server tasks alive at once or a request answered while a task was pending. Distinct: schedule signature + operation kinds."
 }
 func (c14) Enumerated(string) int            { return 0 }
 func (c14) Components() ([]string, []string) { return serverComponents() }
@@ -181,6 +183,18 @@ func (c14) Run(ctx *RunCtx) {
 				return
 			}
 		}
+		// clock oracle (not differential: a reference server in the same process
+		// would share a process-global remembered instant): the item marked
+		// "today" of a date completion names the day of the simulated clock now
+		if method == "textDocument/completion" {
+			if m := todayRe.FindStringSubmatch(got); m != nil {
+				want := time.Unix(0, w.Env.Clock.Nanos).UTC().Format("2006-01-02")
+				if m[1] != want {
+					fail("clock", "today-is-not-today", fmt.Sprintf("completion on d%d offers %s as \"today\" while the clock says %s", doc.No, m[1], want), nil)
+					return
+				}
+			}
+		}
 		// the choice is drawn in both builds so that one seed is one schedule in
 		// the plain and in the -race binary
 		doCompare := c.Pct("compare", 45)
@@ -332,7 +346,7 @@ func (c14) Run(ctx *RunCtx) {
 			heal(op)
 		}
 		doc := w.Docs[c.Choose("doc", len(w.Docs))]
-		kind := c.Weighted("op", []int{9, 2, 2, 14, 2, 1, 1})
+		kind := c.Weighted("op", []int{9, 2, 2, 14, 2, 1, 2})
 		if !doc.Open && kind != 4 && kind != 5 && kind != 6 {
 			if c.Pct("request-on-closed", 10) {
 				r := d.Call("textDocument/hover", J{"textDocument": docID(doc.URI), "position": pos(0, 0)})
@@ -404,6 +418,15 @@ func (c14) Run(ctx *RunCtx) {
 				ctx.T("op%d transport closed by the client with %d background tasks alive", op, d.LiveBg())
 				ctx.Stats.Inc("fault:eof")
 				kinds = append(kinds, "eof")
+			} else if c.Pct("clock-jump", 40) {
+				// the wall clock jumps: forwards over midnight, by months, or backwards
+				// (NTP step); what an answer says about "today" follows the clock of the
+				// moment of the request, never an instant remembered from an earlier one
+				h := []int64{13, 1, 24 * 200, -24, -24 * 40}[c.Choose("clock-jump-hours", 5)]
+				w.Env.Clock.Nanos += h * 3600 * 1000000000
+				ctx.T("op%d the clock jumps by %d hours", op, h)
+				ctx.Stats.Inc("fault:clock-jump")
+				kinds = append(kinds, "clock")
 			}
 		case 3:
 			l, ch, occ := w.OccAt(c, doc)
@@ -499,6 +522,8 @@ func (c14) Run(ctx *RunCtx) {
 	ctx.Stats.Max("max:live-tasks", int64(d.MaxLive))
 	ctx.Stats.State("c14", workspace, len(w.OpenDocs()), d.MaxLive)
 }
+
+var todayRe = regexp.MustCompile(`"detail":"today","kind":\d+,"label":"(\d{4}-\d{2}-\d{2})"`)
 
 func canonAny(v any) string {
 	b, _ := jsonMarshal(v)
